@@ -69,13 +69,14 @@ for name in missing:
 log["stable_missing_with_change"] = still
 
 # without the change
-sh("git stash push -q -- src")
+# NB: `git stash` is shared by all worktrees of a repository: never use it here
+sh("git apply -R patch.diff")
 try:
     rc, out = run_demo()
     log["demo_without_change"] = out[-1500:]
     without_pass = not demo_failed(rc, out) and ("test result: ok" in out or rc == 0)
 finally:
-    sh("git stash pop -q")
+    sh("git apply patch.diff")
 
 ok = with_fail and without_pass and not still
 dst = f"/verif/seeded/{sid}"
@@ -93,7 +94,7 @@ meta = {
     "id": sid, "property": prop, "confirmed": ok,
     "demo_fails_with_change": with_fail, "demo_passes_without_change": without_pass,
     "stable_tests_failing_with_change": still,
-    "what_i_ran": ["cargo test --offline --test seeded_demo (with change, then after git stash of src)",
+    "what_i_ran": ["cargo test --offline --test seeded_demo (with change, then after `git apply -R patch.diff`)",
                    "cargo test --offline --lib and every integration test binary one at a time; the 86 stable_pass names of /root/.vp/BASELINE.json checked by name"],
     "needs_to_manifest": "see SEEDED.md (filled in from the author's description)",
     "confirmed_at": time.strftime("%Y-%m-%dT%H:%M:%SZ", time.gmtime()),
